@@ -507,7 +507,7 @@ func c05Unchanged(what string, keep, in []byte) *hx.Failure {
 func c05PokeDescriptor(d psi.PmtDescriptor) {
 	d.Tag()
 	d.Format()
-	_ = fmt.Sprintf("%v", d)
+	c05Printed(fmt.Sprintf("%v", d))
 	d.IsIso639LanguageDescriptor()
 	d.IsMaximumBitrateDescriptor()
 	d.IsIFrameProfile()
@@ -524,11 +524,21 @@ func c05PokeDescriptor(d psi.PmtDescriptor) {
 	d.IsTTMLDescTagExtension()
 }
 
+// c05PrintPanic remembers the first printed text that carries fmt's marker for a panic inside a String
+// or Format method (fmt recovers those, so the panic never reaches the harness' own recover).
+var c05PrintPanic string
+
+func c05Printed(s string) {
+	if c05PrintPanic == "" && strings.Contains(s, "(PANIC=") {
+		c05PrintPanic = s
+	}
+}
+
 func c05PokePMT(p psi.PMT) {
 	p.Pids()
 	p.VersionNumber()
 	p.CurrentNextIndicator()
-	_ = p.String()
+	c05Printed(p.String())
 	for _, es := range p.ElementaryStreams() {
 		es.StreamType()
 		es.StreamTypeDescription()
@@ -541,16 +551,21 @@ func c05PokePMT(p psi.PMT) {
 		es.ElementaryPid()
 		es.MaxBitRate()
 		es.IsTTMLSubtitling()
-		_ = fmt.Sprintf("%v", es)
+		c05Printed(fmt.Sprintf("%v", es))
 		for _, d := range es.Descriptors() {
 			c05PokeDescriptor(d)
 		}
 		p.PIDExists(es.ElementaryPid())
 		p.IsPidForStreamWherePresentationLagsEbp(es.ElementaryPid())
 	}
+}
+
+// c05ModifyPMT removes a stream from a decoded PMT and prints it again (not read-only: the caller's
+// buffer is compared before this).
+func c05ModifyPMT(p psi.PMT) {
 	if pids := p.Pids(); len(pids) > 0 {
 		p.RemoveElementaryStreams(pids[:1])
-		_ = p.String()
+		c05Printed(p.String())
 	}
 }
 
@@ -585,7 +600,6 @@ func c05PokeSCTE(s scte35.SCTE35) {
 			}
 		}
 	}
-	st := scte35.NewState()
 	for _, d := range s.Descriptors() {
 		d.SCTE35()
 		d.EventID()
@@ -619,18 +633,16 @@ func c05PokeSCTE(s scte35.SCTE35) {
 		d.IsIn()
 		d.SegmentNum()
 		d.Data()
-		for _, e := range s.Descriptors() {
-			d.CanClose(e)
-			d.Equal(e)
-		}
-		st.ProcessDescriptor(d)
-		st.Open()
 	}
-	_ = s.String()
+	c05Printed(s.String())
+}
+
+// c05ReencodeSCTE re-encodes a decoded signal (not a read-only operation: the caller's buffer is compared before it).
+func c05ReencodeSCTE(s scte35.SCTE35) {
 	enc := s.UpdateData()
 	// what the library emits must be accepted again without panicking
 	if again, err := scte35.NewSCTE35(append([]byte{0}, enc...)); err == nil {
-		_ = again.String()
+		c05Printed(again.String())
 	}
 }
 
@@ -716,7 +728,12 @@ func c05Run1(c CaseC05) *hx.Failure {
 	if sampled {
 		a0 = c05Allocated()
 	}
+	c05PrintPanic = ""
 	f := c05Run2(c, in)
+	if f == nil && c05PrintPanic != "" {
+		i := strings.Index(c05PrintPanic, "(PANIC=")
+		f = hx.Failf("panic-while-printing:"+c.Target, "%s: a String/Format method panicked while the object was printed (fmt swallowed it): ...%s", c.Target, head([]byte(c05PrintPanic[i:]), 160))
+	}
 	if sampled {
 		used = c05Allocated() - a0
 	}
@@ -929,6 +946,11 @@ func c05Run2(c CaseC05, in []byte) *hx.Failure {
 		}
 		if err == nil && p != nil {
 			c05PokePMT(p)
+			if f := c05Unchanged("NewPMT and its getters", keep, in); f != nil {
+				return f
+			}
+			c05ModifyPMT(p)
+			return nil
 		}
 		return c05Unchanged("NewPMT and its getters", keep, in)
 	case "pmt-descriptor":
@@ -937,7 +959,7 @@ func c05Run2(c CaseC05, in []byte) *hx.Failure {
 		es := psi.NewPmtElementaryStream(byte(c.Arg>>3), 0x100, []psi.PmtDescriptor{d})
 		es.MaxBitRate()
 		es.IsTTMLSubtitling()
-		_ = fmt.Sprintf("%v", es)
+		c05Printed(fmt.Sprintf("%v", es))
 		return c05Unchanged("descriptor decoders", keep, in)
 	case "filter-pmt":
 		pkts := c05Packets(in)
@@ -1014,6 +1036,12 @@ func c05Run2(c CaseC05, in []byte) *hx.Failure {
 		}
 		if err == nil && s != nil {
 			c05PokeSCTE(s)
+			// decoding, the getters and printing are read-only: the caller's buffer is as it was
+			if f := c05Unchanged("NewSCTE35 and its getters", keep, in); f != nil {
+				return f
+			}
+			c05ReencodeSCTE(s)
+			return nil
 		}
 		return c05Unchanged("NewSCTE35 and its getters", keep, in)
 	case "sync":
@@ -1033,6 +1061,7 @@ func c05Run2(c CaseC05, in []byte) *hx.Failure {
 		r := &fragReader{data: clone(in), chunks: c.Chunks, failAfter: -1}
 		if p, err := psi.ReadPMT(r, c.Arg); err == nil && p != nil {
 			c05PokePMT(p)
+			c05ModifyPMT(p)
 		}
 	case "accumulator":
 		acc := packet.NewAccumulator(psi.PmtAccumulatorDoneFunc)
@@ -1044,6 +1073,7 @@ func c05Run2(c CaseC05, in []byte) *hx.Failure {
 			if err == gots.ErrAccumulatorDone {
 				if pm, err := c05TryNewPMT(acc.Bytes()); err == nil && pm != nil {
 					c05PokePMT(pm)
+					c05ModifyPMT(pm)
 				}
 				scte35.NewSCTE35(acc.Bytes())
 				acc.Reset()
@@ -1087,7 +1117,7 @@ func checkC05(c CaseC05, x *hx.Ctx) *hx.Failure {
 var propC05 = hx.Register(hx.Prop[CaseC05]{ID: "C05", Gen: genC05, Check: checkC05})
 
 func c05Rule() {
-	hx.Rec("C05").SetRule("cases: (entry-point group, input) over 17 groups: packet accessors / adaptation-field getters / modifiers on 188-byte arrays; FromBytes; PSI accessors; NewPAT, NewPMT (+ every getter, descriptor decoder, String, RemoveElementaryStreams), descriptor decoders directly, FilterPMTPacketsToPids; NewPESHeader; ReadEncoderBoundaryPoint; NewSCTE35 (+ every getter of signal/command/descriptors, String, UpdateData, re-decode, state tracker); Sync, ReadPAT, ReadPMT, accumulator, IOWriter.Write/ReadFrom over byte streams through fragmenting and failing readers. Inputs come from three families: well-formed instances from the reference builders; those instances mutated 1..3 times (truncate anywhere, boundary constants 0x00/0xFF/0x7F/0x80/0x0D/0x47/183/184/188 at any offset, +-1/2 on any byte, random byte, extension, bit flip, byte removal; for packets: af_len 0..255, flags byte, AFC, variable-field length bytes; for SCTE-35: UPID type forced to MID with any residual length, segmentation descriptors ending 1..6 bytes early or 1..3 late inside otherwise consistent lengths, and 65 KiB sections with descriptor_loop_length >= 65270 ending up to 3 bytes short/long; for the PMT filter: 355..360 packets (more than 64 KiB) on the PMT PID behind a first section of another table with section_length 0..6); arbitrary bytes. Oracle: no panic (recovered, keyed by innermost library function + statement text), returns within 20 s and below 1 GiB heap (in-process watchdog), every decoder call (NewPAT, NewPMT, NewPESHeader, ReadEncoderBoundaryPoint, NewSCTE35) allocates at most 32 KiB + 128 bytes per input byte and (on one case in eight) the whole call sequence at most 2 MiB + 16 KiB per input byte (exact TotalAlloc deltas), read-only operations leave the caller's buffer byte-identical, objects returned without error survive all getters, printing and re-encoding. Non-trivial: input from the mutated, arbitrary, bigloop or bigfirst family; distinct by (target, input).",
+	hx.Rec("C05").SetRule("cases: (entry-point group, input) over 17 groups: packet accessors / adaptation-field getters / modifiers on 188-byte arrays; FromBytes; PSI accessors; NewPAT, NewPMT (+ every getter, descriptor decoder, String, RemoveElementaryStreams), descriptor decoders directly, FilterPMTPacketsToPids; NewPESHeader; ReadEncoderBoundaryPoint; NewSCTE35 (+ every getter of signal/command/descriptors, String, then UpdateData and a re-decode of what it emits); Sync, ReadPAT, ReadPMT, accumulator, IOWriter.Write/ReadFrom over byte streams through fragmenting and failing readers. Inputs come from three families: well-formed instances from the reference builders; those instances mutated 1..3 times (truncate anywhere, boundary constants 0x00/0xFF/0x7F/0x80/0x0D/0x47/183/184/188 at any offset, +-1/2 on any byte, random byte, extension, bit flip, byte removal; for packets: af_len 0..255, flags byte, AFC, variable-field length bytes; for SCTE-35: UPID type forced to MID with any residual length, segmentation descriptors ending 1..6 bytes early or 1..3 late inside otherwise consistent lengths, and 65 KiB sections with descriptor_loop_length >= 65270 ending up to 3 bytes short/long; for the PMT filter: 355..360 packets (more than 64 KiB) on the PMT PID behind a first section of another table with section_length 0..6); arbitrary bytes. Oracle: no panic (recovered, keyed by innermost library function + statement text), returns within 20 s and below 1 GiB heap (in-process watchdog), every decoder call (NewPAT, NewPMT, NewPESHeader, ReadEncoderBoundaryPoint, NewSCTE35) allocates at most 32 KiB + 128 bytes per input byte and (on one case in eight) the whole call sequence at most 2 MiB + 16 KiB per input byte (exact TotalAlloc deltas), read-only operations leave the caller's buffer byte-identical, objects returned without error survive all getters, printing and re-encoding. Non-trivial: input from the mutated, arbitrary, bigloop or bigfirst family; distinct by (target, input).",
 		"a returned error is always acceptable",
 		"the CLI main package is not driven in-process",
 		"hang / heap thresholds (20 s, 1 GiB) are four to six orders of magnitude above the normal cost of a case; the allocation budgets are 4x (decoders) to 10x (whole sequence) above the maxima measured on the repaired tree (TestC05_ZAllocSurvey)")
